@@ -17,6 +17,7 @@ package redis
 import (
 	"crypto/tls"
 	"errors"
+	"fmt"
 	"io"
 	"net"
 	"strconv"
@@ -260,6 +261,13 @@ func (server *Server) tlsServe() error {
 
 // receive handles a client connection.
 func (server *Server) receive(conn net.Conn, tlsState *tls.ConnectionState) error {
+	// A panic while serving one connection must not terminate the whole server.
+	defer func() {
+		if r := recover(); r != nil {
+			log.Errorf("%s/%s panic: %v", PackageName, Version, r)
+		}
+	}()
+
 	_, isPasswdRequired := server.ConfigRequirePass()
 
 	handlerConn := newConnWith(conn, tlsState)
@@ -335,7 +343,15 @@ func (server *Server) receive(conn net.Conn, tlsState *tls.ConnectionState) erro
 }
 
 // handleMessage handles a client message.
-func (server *Server) handleMessage(conn *Conn, msg *proto.Message) (*Message, error) {
+func (server *Server) handleMessage(conn *Conn, msg *proto.Message) (resMsg *Message, resErr error) {
+	// A panic while executing one command becomes an error reply for that command.
+	defer func() {
+		if r := recover(); r != nil {
+			log.Errorf("%s/%s panic: %v", PackageName, Version, r)
+			resMsg, resErr = nil, fmt.Errorf("%w (%v)", ErrSystem, r)
+		}
+	}()
+
 	switch msg.Type {
 	case proto.StringMessage:
 		return nil, nil
